@@ -170,6 +170,43 @@ impl Context {
             .expect("Variable not found")
     }
 
+    #[cfg(feature = "verif")]
+    pub fn verif_counts(&self) -> (usize, usize, usize) {
+        (
+            self.states.len(),
+            self.memory_blocks.len(),
+            self.states.iter().filter(|s| s.arguments.is_some()).count(),
+        )
+    }
+
+    #[cfg(feature = "verif")]
+    fn verif_block_variables(&self, block: usize) -> Vec<crate::interpreter::verif::VarRecord> {
+        self.memory_blocks[block]
+            .variables
+            .verif_entries()
+            .into_iter()
+            .map(|(name, value)| crate::interpreter::verif::VarRecord { block, name, value })
+            .collect()
+    }
+
+    /// Variables of the global block and of the current block.
+    #[cfg(feature = "verif")]
+    pub fn verif_visible_variables(&self) -> Vec<crate::interpreter::verif::VarRecord> {
+        let mut result = self.verif_block_variables(0);
+        let current = self.current_memory_block_index();
+        if current != 0 {
+            result.extend(self.verif_block_variables(current));
+        }
+        result
+    }
+
+    #[cfg(feature = "verif")]
+    pub fn verif_all_variables(&self) -> Vec<crate::interpreter::verif::VarRecord> {
+        (0..self.memory_blocks.len())
+            .flat_map(|block| self.verif_block_variables(block))
+            .collect()
+    }
+
     fn state(&self) -> &State {
         self.states.last().expect("Empty states!")
     }
